@@ -19,7 +19,10 @@ RULE = ("random 2-TBN templates: 1-3 variables per slice, cardinalities 2-3, ran
         "string/int node names, optional string state names; three template classes (every name has an intra "
         "edge and inter-edge heads=tails / heads!=tails / a name without intra edge).  Separate streams: "
         "initialize_initial_state with omitted CPDs, permuted CPD evidence order, cardinality 2-4, state names; "
-        "get_constant_bn with t_slice 0..3; add_edge normalisation/mirroring incl. rejected edges.  A case is "
+        "get_constant_bn with t_slice 0..3; add_edge normalisation/mirroring incl. rejected edges; sessions: ONE "
+        "DBNInference object answering 3-8 questions where consecutive questions often keep the evidence variables "
+        "(esp. of slice 0) and change their states, change only the query, or repeat an earlier question - each answer "
+        "must equal the fresh-engine answer.  A case is "
         "non-trivial when the template has >=1 inter edge (inference) / >=1 CPD to complete (init); distinct = "
         "distinct canonical (kind, template, question)")
 TRUSTED_BASE = ["pgmpy BeliefPropagation/junction tree (replaced by its specification in the model: normalised marginal "
@@ -114,6 +117,55 @@ def gen_question(rng, t, tmax):
     return qs, ev
 
 
+def gen_session(rng, t, tmax):
+    """3-8 questions for ONE DBNInference object.  Questions stay inside the classes where single queries are right
+    (queries in one slice; smoothing evidence on non-interface names only); consecutive questions often keep the
+    evidence VARIABLES and change their STATES, or repeat an earlier question."""
+    n, card = t["n"], t["card"]
+    tails = set(u for u, _ in t["inter"])
+
+    def fresh():
+        T = rng.randint(1, tmax)
+        slot = rng.randint(0, T)
+        qs = [[v, slot] for v in rng.sample(range(n), min(n, rng.choice([1, 1, 2])))]
+        mode = rng.choice(["fwd", "fwd", "bwd", "query"])
+        allv = [[v, s] for v in range(n) for s in range(T + 1) if [v, s] not in qs]
+        if mode != "fwd":
+            allv = [x for x in allv if x[0] not in tails]
+        evv = []
+        s0 = [x for x in allv if x[1] == 0]
+        if s0 and rng.random() < 0.85:
+            evv += rng.sample(s0, min(len(s0), rng.choice([1, 1, 2])))
+        rest = [x for x in allv if x not in evv]
+        evv += rng.sample(rest, min(len(rest), rng.choice([0, 1, 1, 2])))
+        if [v for v in qs if v[1] == T] == [] and not any(x[1] == T for x in evv):
+            pass  # T only bounds the slots drawn; the engine derives its own range
+        return {"qs": qs, "ev": [[x, rng.randrange(card[x[0]])] for x in evv], "mode": mode}
+
+    steps = []
+    for k in range(rng.randint(3, 8)):
+        r = rng.random()
+        if steps and r < 0.55 and steps[-1]["ev"]:
+            prev = steps[-1]
+            ev = [[x, st] for x, st in prev["ev"]]
+            idx = [i for i in range(len(ev)) if rng.random() < 0.7] or [rng.randrange(len(ev))]
+            for i in idx:
+                c = card[ev[i][0][0]]
+                ev[i][1] = (ev[i][1] + rng.randint(1, c - 1)) % c
+            st = {"qs": prev["qs"], "ev": ev, "mode": prev["mode"]}
+            if rng.random() < 0.3:  # same evidence variables, other states, another query variable of the slice
+                slot = prev["qs"][0][1]
+                cand = [[v, slot] for v in range(n) if [v, slot] not in [x for x, _ in ev]]
+                if cand:
+                    st["qs"] = [rng.choice(cand)]
+            steps.append(st)
+        elif steps and r < 0.7:
+            steps.append(dict(rng.choice(steps)))
+        else:
+            steps.append(fresh())
+    return steps
+
+
 def cases(tier, seed):
     rng = random.Random(seed)
     out = []
@@ -157,6 +209,17 @@ def cases(tier, seed):
         t = gen_template(rng, rng.choice(["valid", "iface", "nointra"]))
         out.append({"kind": "constbn", "t": t, "k": rng.choice([0, 0, 1, 3]), "style": rng.choice(["str", "int"]),
                     "named": rng.random() < 0.25, "isolated": rng.random() < 0.15})
+    # sessions: one engine object, several questions (cross-query state would show here)
+    n_s = 70 if tier == "quick" else 600
+    for i in range(n_s):
+        r = rng.random()
+        cls = "valid" if r < 0.85 else ("iface" if r < 0.95 else "nointra")
+        t = gen_template(rng, cls)
+        states = 1
+        for c_ in t["card"]:
+            states *= c_
+        out.append({"kind": "session", "t": t, "steps": gen_session(rng, t, 3 if states <= 12 else 2),
+                    "style": rng.choice(["str", "int"]), "use_init": False})
     n_g = 80 if tier == "quick" else 600
     for i in range(n_g):
         n = rng.randint(1, 4)
@@ -185,6 +248,18 @@ def cases(tier, seed):
 
 
 def shrink(case):
+    if case["kind"] == "session":
+        for i in range(len(case["steps"])):
+            if len(case["steps"]) > 1:
+                c = dict(case)
+                c["steps"] = case["steps"][:i] + case["steps"][i + 1:]
+                yield c
+        for i, st in enumerate(case["steps"]):
+            for j in range(len(st["ev"])):
+                c = dict(case)
+                c["steps"] = [dict(x) for x in case["steps"]]
+                c["steps"][i]["ev"] = st["ev"][:j] + st["ev"][j + 1:]
+                yield c
     if case["kind"] == "infer":
         for i in range(len(case["ev"])):
             c = dict(case)
@@ -374,25 +449,9 @@ def has_nan(v):
     return any(x != x for x in v)
 
 
-def run_infer(case, drv):
-    import numpy as np
+def _build_engine(case, t, cls, heads, tags):
+    """DBN + DBNInference as a user builds them; returns (engine, None) or (None, ('err', 3))"""
     from pgmpy.inference import DBNInference
-    t, qs, ev, mode = case["t"], case["qs"], case["ev"], case["mode"]
-    n, card = t["n"], t["card"]
-    filt = mode == "fwd"
-    heads = set(v for _, v in t["inter"])
-    tails = set(u for u, _ in t["inter"])
-    touched = set(x for e in t["intra"] for x in e)
-    cls = "nointra" if touched != set(range(n)) else ("valid" if heads == tails else "iface")
-    iev = any(x[0] in tails for x, _ in ev)
-    T = max([q[1] for q in qs] + [x[1] for x, _ in ev])
-    tags = ["infer", "cls=" + cls, "mode=" + mode, "n=%d" % n, "T=%d" % T, "nev=%d" % len(ev), "nq=%d" % len(qs),
-            "iface-evidence=%s" % iev, "ninter=%d" % len(t["inter"]), "maxcard=%d" % max(card)]
-    if case.get("named"):
-        tags.append("named-states")
-    key = template_key(case)
-
-    # --- pgmpy
     cpds = t["cpds"]
     used_init = False
     if case.get("use_init") and not case.get("named") and cls != "nointra":
@@ -416,14 +475,44 @@ def run_infer(case, drv):
             dbn = build_dbn(case, t, cpds)
     else:
         dbn = build_dbn(case, t, cpds)
-    impl = None
     try:
-        inf = DBNInference(dbn)
+        return DBNInference(dbn), None
     except ValueError as e:
         if "CPD defined on variable not in the model" in str(e):
-            impl = ("err", 3)
-        else:
-            raise
+            return None, ("err", 3)
+        raise
+
+
+def run_infer(case, drv, shared=None):
+    """shared: dict holding the DBNInference object of a session (one engine, several questions)"""
+    import numpy as np
+    from pgmpy.inference import DBNInference
+    t, qs, ev, mode = case["t"], case["qs"], case["ev"], case["mode"]
+    n, card = t["n"], t["card"]
+    filt = mode == "fwd"
+    heads = set(v for _, v in t["inter"])
+    tails = set(u for u, _ in t["inter"])
+    touched = set(x for e in t["intra"] for x in e)
+    cls = "nointra" if touched != set(range(n)) else ("valid" if heads == tails else "iface")
+    iev = any(x[0] in tails for x, _ in ev)
+    T = max([q[1] for q in qs] + [x[1] for x, _ in ev])
+    tags = ["infer", "cls=" + cls, "mode=" + mode, "n=%d" % n, "T=%d" % T, "nev=%d" % len(ev), "nq=%d" % len(qs),
+            "iface-evidence=%s" % iev, "ninter=%d" % len(t["inter"]), "maxcard=%d" % max(card)]
+    if case.get("named"):
+        tags.append("named-states")
+    key = template_key(case)
+
+    # --- pgmpy
+    cpds = t["cpds"]
+    if shared is not None and "engine" in shared:
+        inf, impl = shared["engine"]
+        if shared.get("used_init"):
+            tags.append("via-initialize_initial_state")
+    else:
+        inf, impl = _build_engine(case, t, cls, heads, tags)
+        if shared is not None:
+            shared["engine"] = (inf, impl)
+            shared["used_init"] = "via-initialize_initial_state" in tags
     named_crash = None
     if impl is None:
         pq = [(nm(case, v), s) for v, s in qs]
@@ -771,8 +860,45 @@ def run_case(case, drv):
         return ok(nontrivial=False, key=template_key(case), tags=[k, "cpd-on-missing-slice1-node"])
 
 
+def run_session(case, drv):
+    """One DBNInference object answers all the steps; every answer must be the fresh-engine answer (model,
+    unrolled reference): the current code keeps no cross-query state."""
+    steps = case["steps"]
+    key = template_key(case)
+    tags = set(["session", "steps=%d" % len(steps)])
+    for a, b in zip(steps, steps[1:]):
+        va, vb = sorted(x for x, _ in a["ev"]), sorted(x for x, _ in b["ev"])
+        if va and va == vb and sorted(map(str, a["ev"])) != sorted(map(str, b["ev"])):
+            tags.add("restated-evidence")
+            sa = sorted(str(e) for e in a["ev"] if e[0][1] == 0)
+            sb = sorted(str(e) for e in b["ev"] if e[0][1] == 0)
+            if sa and sa != sb:
+                tags.add("restated-slice0-evidence")
+    if any(steps[i] == steps[j] for i in range(len(steps)) for j in range(i)):
+        tags.add("repeated-question")
+    shared = {}
+    finding = None
+    for i, st in enumerate(steps):
+        sub = {"kind": "infer", "t": case["t"], "qs": st["qs"], "ev": st["ev"], "mode": st["mode"],
+               "style": case.get("style", "str"), "named": False, "use_init": case.get("use_init", False)}
+        o = run_infer(sub, drv, shared)
+        tags.update(x for x in o.get("tags", []) if x.startswith(("cls=", "mode=", "T=", "n=")) or x in (
+            "agree", "spec-checked", "zero-probability-evidence"))
+        if not o["ok"]:
+            det = {"step": i, "question": st, "earlier_questions": steps[:i], "detail": o.get("detail")}
+            if o.get("finding") is None:
+                return bad("session:" + str(o.get("kind")), det, key=key, tags=sorted(tags))
+            if finding is None:
+                finding = bad("session:" + str(o.get("kind")), det, finding=o["finding"], key=key, tags=sorted(tags))
+    if finding is not None:
+        return finding
+    return ok(key=key, tags=sorted(tags))
+
+
 def _run_case(case, drv):
     k = case["kind"]
+    if k == "session":
+        return run_session(case, drv)
     if k == "infer":
         return run_infer(case, drv)
     if k == "init":
